@@ -129,6 +129,33 @@ def oracle(tier, rng, deep=False):
             d = np.asarray(clf.dual_coef_).ravel()
             if not np.all((d >= 0) & (d <= C)):
                 failures.append(dict(site="infeasible:LinearSVC:dual", input=dict(X=X.tolist(), y=y.tolist(), C=C), observed=d.tolist()))
+        # warm-started refit after SHRINKING the box: the old dual coefficients sit above the new C; the result must be
+        # inside the new box whatever the budget (the out-of-box entries are in the support, hence in the first working set)
+        for _ in range(4 if tier == "quick" else 20):
+            X, y = sl.make_problem(rng, n=rng.randint(14, 24), p=rng.randint(2, 5), kind="sign")
+            C1 = rng.choice([1.0, 5.0])
+            C2 = C1 * rng.choice([0.02, 0.1, 0.5])
+            clf = LinearSVC(C=C1, tol=1e-10, warm_start=True).fit(X, y)
+            clf.C = C2
+            clf.max_iter = rng.choice([1, 2, 5])
+            clf.fit(X, y)
+            ev += 1
+            d = np.asarray(clf.dual_coef_).ravel()
+            if not np.all((d >= 0) & (d <= C2 * (1 + 1e-12))):
+                failures.append(dict(site="infeasible:LinearSVC:dual-after-warm-refit", input=dict(X=X.tolist(), y=y.tolist(), C1=C1, C2=C2, max_iter=clf.max_iter),
+                                     observed=dict(max=float(d.max()), n_above=int(np.sum(d > C2)))))
+        # the same at solver level: AndersonCD + IndicatorBox started from a point of a larger box
+        for _ in range(4 if tier == "quick" else 20):
+            X, y = sl.make_problem(rng, n=rng.randint(8, 14), p=rng.randint(12, 20), kind="real")
+            n, p = X.shape
+            C2 = rng.choice([0.05, 0.2])
+            w0 = np.array([rng.choice([0.0, 1.0, 1.0, 0.5]) for _ in range(p)])
+            knobs = dict(max_iter=rng.choice([1, 2]), max_epochs=rng.choice([1, 5, 50]), p0=rng.choice([1, 10]), tol=1e-12, fit_intercept=False)
+            w, b, objs, stop = sl.run(ss.AndersonCD(**knobs), np.asfortranarray(X), y, sl.cc(sd.Quadratic()), sl.cc(sp.IndicatorBox(C2)), w0.copy(), X @ w0)
+            ev += 1
+            if not np.all((w >= 0) & (w <= C2 * (1 + 1e-12))):
+                failures.append(dict(site="infeasible:AndersonCD:IndicatorBox-after-warm-start-outside-box", input=dict(X=X.tolist(), y=y.tolist(), C=C2, w_init=w0.tolist(), knobs=knobs),
+                                     observed=dict(max=float(w.max()))))
     except Exception as e:
         failures.append(dict(site="raises:LinearSVC", input={}, observed=repr(e)[:300]))
     return dict(evaluations=ev, distinct_nontrivial=nontriv, failures=failures, samples=samples)
